@@ -302,9 +302,18 @@ def generate(ctx):
         ctx.count("requant" if requant else "exact")
         ctx.count("bars:%d" % len(piece["bars"]))
         ctx.check("split_bars", {"tracks": piece["tracks"], "requant": requant})
-        if i % 4 == 0:
+        if i % 2 == 0:
             sts = [rng.choice(P.SEQ_STATES) for _ in piece["tracks"]]
             ctx.count("wrapper-states")
-            ctx.check("split_bars", {"tracks": piece["tracks"], "requant": requant, "states": sts})
+            trs = piece["tracks"]
+            if rng.random() < 0.5:
+                # one track ends in whole bars of silence (the rest that makes it the longest may live in only one of its views)
+                j = rng.randrange(len(trs))
+                last = piece["bars"][-1][1]
+                gap = max(0, piece["total"] - rel_timed(trs[j])[1])
+                trs = [list(t) for t in trs]
+                trs[j] = trs[j] + [G.pm(WAIT, 0, gap + last * rng.randint(1, 2))]
+                ctx.count("wrapper-states:trailing-silence")
+            ctx.check("split_bars", {"tracks": trs, "requant": requant, "states": sts})
         ctx.corr("splitBars", P.op_splitBars(0, requant, piece["tracks"]))
         ctx.sample({"tracks": [t[:6] for t in piece["tracks"]], "requant": requant})
